@@ -43,7 +43,7 @@ def ivals(rng, n, cnt):
     v += [value(rng, n) for _ in range(cnt)]
     return v
 
-HEAVY = ('c01.leak.inv_odd_mod', 'c01.leak.gcd', 'c01.leak.inv_mod2k', 'c01.leak.monty', 'c01.leak.boxed_inv_mod2k', 'c01.hook.divsteps', 'c01.leak.sqrt')
+HEAVY = ('c01.leak.mul_mod ', 'c01.leak.monty_params', 'c01.leak.multi_exp', 'c01.leak.inv_odd_mod', 'c01.leak.gcd', 'c01.leak.inv_mod2k', 'c01.leak.monty', 'c01.leak.boxed_inv_mod2k', 'c01.hook.divsteps', 'c01.leak.sqrt')
 
 def gen(tier, rng):
     """the lines of `gen_all`, with the ops whose leak model is slow (long traces) spread evenly over the stream, so that
@@ -215,6 +215,7 @@ def gen_all(tier, rng):
         for a in [0, 1, (1 << (64 * n)) - 1] + [value(rng, n) for _ in range(6)]:
             yield f"c01.hook.boxed_shr1 {n} {hx(a)}"
     yield from gen_safegcd(tier, rng)
+    yield from gen_modular(tier, rng)
 
 def unsat_value(rng, u):
     """u 62-bit limbs (two's complement over 62u bits), each held in a 64-bit word of the token"""
@@ -298,6 +299,68 @@ def gen_safegcd(tier, rng):
             yield f"c01.leak.gcd {n} {hx((a << sh) % m)} {hx((b << rng.randrange(0, 64 * n)) % m)}"
         for a, b in [(0, 0), (0, 5), (5, 0), (m - 1, m - 1), (m // 2, m // 2), (1, m - 1), (6, 9)]:
             yield f"c01.leak.gcd {n} {hx(a)} {hx(b)}"
+
+def gen_modular(tier, rng):
+    q = tier == 'quick'
+    reps = 10 if q else 100
+    for n in W_ALL:
+        m = 1 << (64 * n)
+        big = n >= 16
+        r = max(3, reps // (3 if big else 1))
+        for _ in range(r):
+            c = rng.choice([1, 2, 189, WMAX, WMAX - 1, 1 << 63, limb_choice(rng) or 1])
+            p = m - c
+            if p < 2: continue
+            a, b = below(rng, n, p), below(rng, n, p)
+            yield f"c01.leak.special {n} {hx(a)} {hx(b)} {hx(c)}"
+            yield f"c01.leak.special {n} {hx(p - 1)} {hx(p - 1)} {hx(c)}"
+            d = rng.choice([1, 2, 3, WMAX, 1 << 63, limb_choice(rng) or 1])
+            yield f"c01.leak.rem_limb {n} {hx(value(rng, n))} {hx(d)}"
+            yield f"c01.hook.mac_by_limb {n} {hx(value(rng, n))} {hx(value(rng, n))} {hx(limb_choice(rng))} {hx(limb_choice(rng))}"
+    for n in W_SMALL:
+        m = 1 << (64 * n)
+        for _ in range(reps):
+            p = rng.choice([m - 1, value(rng, n) | 1, 3, (m >> 1) + 1, m - rng.randrange(1, 500) * 2 + 1, value(rng, max(1, n - 1)) | 1])
+            if p < 3: p = 3
+            a, b = below(rng, n, p), below(rng, n, p)
+            yield f"c01.leak.mul_mod {n} {hx(a)} {hx(b)} {hx(p)}"
+            yield f"c01.hook.div_by_2 {n} {hx(a)} {hx(p)}"
+            yield f"c01.leak.monty_params {n} {hx(p)}"
+            # vartime / trait form: any non-zero modulus of every limb length, unreduced factors
+            pv = rng.choice([p, 1, 2, m - 1, m >> 1, value(rng, rng.randrange(1, n + 1)) or 1, 1 << rng.randrange(64 * n), WMAX, 1 << 64 if n > 1 else 5])
+            yield f"c01.leak.mul_mod_vartime {n} {hx(value(rng, n))} {hx(value(rng, n))} {hx(pv)}"
+        # linear combinations: the window is 2^mlz products; modulus with few / many leading zeros
+        for _ in range(reps):
+            lzb = rng.choice([0, 0, 1, 2, 5, 63, 64 if n > 1 else 3, 70 if n > 1 else 7])
+            lzb = min(lzb, 64 * n - 2)
+            p = (rng.getrandbits(64 * n - lzb) | (1 << (64 * n - lzb - 1)) | 1)
+            own = min(lzb, 63)
+            ln = rng.choice([1, 2, 3, 4, 5, 9])
+            mlz = rng.choice([own, 0, min(own, 1), min(own, 2)])
+            vals = [below(rng, n, p) for _ in range(2 * ln)]
+            yield f"c01.hook.lincomb {n} {mlz} {hx(p)} " + " ".join(hx(v) for v in vals)
+        for _ in range(max(3, reps // 2)):
+            p = rng.choice([m - 1, value(rng, n) | 1, 3, (m >> 1) + 1])
+            if p < 3: p = 3
+            cnt = rng.choice([1, 2, 3])
+            eb = rng.choice([0, 1, 4, 5, 63, 64, 64 * n])
+            eb = min(eb, 64 * n)
+            vals = []
+            for _ in range(cnt):
+                vals += [below(rng, n, p), rng.choice([0, 1, 15, 16, value(rng, n)])]
+            yield f"c01.leak.multi_exp {n} {eb} {hx(p)} " + " ".join(hx(v) for v in vals)
+        # random_mod: enough words for ~20 rejections
+        for _ in range(reps):
+            p = rng.choice([1, 2, 3, m - 1, m >> 1, (m >> 1) + 1, value(rng, n) or 1, value(rng, rng.randrange(1, n + 1)) or 1, 1 << rng.randrange(64 * n)])
+            nl = (p.bit_length() + 63) // 64
+            himod = p >> (64 * (nl - 1))
+            ws = []
+            for _ in range(60 * nl + 8):
+                k = rng.randrange(6)
+                ws.append(himod if k == 0 else (himod - 1) % (WMAX + 1) if k == 1 else (himod + 1) & WMAX if k == 2 else 0 if k == 3 else rng.getrandbits(64))
+            # make sure the draw ends: a zero candidate is always below a modulus > 0 ... except modulus 1 needs exactly 0
+            ws[-(nl + 2):] = [0] * (nl + 2)
+            yield f"c01.leak.random_mod {n} {hx(p)} " + " ".join(hx(w) for w in ws)
 
 def nontrivial(line):
     return any(len(t) > 2 for t in line.split()[1:])
